@@ -129,3 +129,147 @@ def aggregate_purity_and_sum_rule(cx, nmol):
     sc = cx.real("scale", 0.5, 2.0)
     sp2 = run(scale=sc)
     cx.prove_eq("quadratic_in_dipole_factor", sp2.data, sc * sc * sp.data, tol=1e-7)
+
+
+def _run_aggregate(cx, agg, ta, H, D, capture=None):
+    """the real AbsSpectrumCalculator._calculate_aggregate on `agg` with Hamiltonian data H and dipole
+    data D; optionally records what is handed to / returned by one_transition_spectrum"""
+    from quantarhei.spectroscopy.abscalculator import AbsSpectrumCalculator
+    agg.HamOp._data = H.copy()
+    agg.TrDMOp._data = D.copy()
+    calc = AbsSpectrumCalculator(ta, system=agg)
+    with cx.concrete():
+        calc.bootstrap(rwa=1.0)
+    if capture is not None:
+        orig = calc.one_transition_spectrum
+
+        def wrapped(self, tr):
+            out = orig(tr)
+            capture.append(dict(dd=tr["dd"], om=tr["om"], ct=numpy.array(tr["ct"]).copy(), gg=list(tr["gg"]),
+                                out=numpy.array(out).copy()))
+            return out
+        calc.one_transition_spectrum = types.MethodType(wrapped, calc)
+    return calc, calc._calculate_aggregate(raw=True)
+
+
+def _site_dipoles(cx, N, tag="d"):
+    from symnum import core
+    D = numpy.zeros((N, N, 3)) if not cx.sym else core.zeros((N, N, 3))
+    ds = []
+    for i in range(1, N):
+        v = cx.real_array("%s%d" % (tag, i), 3)
+        ds.append(v)
+        D[0, i, :] = v
+        D[i, 0, :] = v
+    return D, ds
+
+
+@harness("C11", "aggregate_transitions",
+         quick=[dict(nmol=2)], thorough=[dict(nmol=2), dict(nmol=3)],
+         functions=[F_A + ":AbsSpectrumCalculator._calculate_aggregate", F_A + ":AbsSpectrumCalculator._excitonic_coft",
+                    F_A + ":AbsSpectrumCalculator.one_transition_spectrum",
+                    "quantarhei/qm/hilbertspace/hamiltonian.py:Hamiltonian.diagonalize",
+                    "quantarhei/qm/hilbertspace/dmoment.py:TransitionDipoleMoment.transform",
+                    "quantarhei/qm/hilbertspace/dmoment.py:TransitionDipoleMoment.dipole_strength",
+                    "quantarhei/qm/corfunctions/cfmatrix.py:CorrelationFunctionMatrix.get_coft"],
+         bound="dimer (thorough trimer) whose molecules have different baths, 4 time points, Hamiltonian given by its "
+               "eigen-decomposition (ground state decoupled), site dipoles symbolic: what the code hands to the "
+               "one-transition routine is, for every exciton a, the dipole strength |sum_n S_na d_n|^2, the frequency "
+               "w_a - w_0 - rwa and the bath function sum_n S_na^4 c_n(t); the strengths sum to sum_n |d_n|^2; the "
+               "returned spectrum is the sum of the one-transition spectra; a common rotation of all dipoles leaves "
+               "the spectrum unchanged",
+         out="supplied relaxation tensor / rate matrix; rotations about more than one axis at once (plane rotations "
+             "about x, y, z separately)")
+def aggregate_transitions(cx, nmol):
+    import quantarhei as qr
+    agg = build_aggregate(cx, nmol, Nt=4, reorgs=[20 + 15 * i for i in range(nmol)])
+    N = agg.HamOp.dim
+    with cx.concrete():
+        ta = qr.TimeAxis(0.0, 4, 1.0)
+        cfm = agg.get_SystemBathInteraction().CC
+        cofts = [[numpy.array(cfm.get_coft(k, l)) for l in range(nmol)] for k in range(nmol)]
+    H, w, S = spectral_hamiltonian(cx, N, block=[[0], list(range(1, N))])
+    D, ds = _site_dipoles(cx, N)
+    cap = []
+    calc, sp = _run_aggregate(cx, agg, ta, H, D, capture=cap)
+    cx.assume_denominators_nonzero("")
+    if not cx.sym:
+        w, S = numpy.linalg.eigh(numpy.asarray(H, dtype=float))
+    cx.prove("one_call_per_exciton", len(cap) == N - 1)
+    if len(cap) != N - 1:
+        return
+    for k in range(nmol):
+        for l in range(nmol):
+            if k != l:
+                cx.prove("independent_baths[%d,%d]" % (k, l), bool(numpy.all(cofts[k][l] == 0)))
+    tot = 0
+    acc = 0
+    for a in range(1, N):
+        c = cap[a - 1]
+        v = 0
+        for n_ in range(1, N):
+            v = v + S[n_, a] * D[0, n_, :]
+        cx.prove_eq("dipole_strength[%d]" % a, c["dd"], numpy.dot(v, v), tol=1e-7)
+        cx.prove_eq("transition_frequency[%d]" % a, c["om"], w[a] - w[0] - calc.rwa, tol=1e-7)
+        ref = 0
+        for k in range(nmol):
+            ref = ref + (S[k + 1, a] ** 4) * cofts[k][k]
+        cx.prove_eq("exciton_bath_function[%d]" % a, c["ct"], ref, tol=1e-9)
+        cx.prove("no_lifetime_broadening[%d]" % a, c["gg"] == [0.0])
+        tot = tot + c["dd"]
+        acc = acc + c["out"].real if cx.sym else acc + numpy.real(c["out"])
+    want = 0
+    for v in ds:
+        want = want + numpy.dot(v, v)
+    cx.prove_eq("strengths_sum_to_site_dipoles", tot, want, tol=1e-7)
+    cx.prove_eq("spectrum_is_sum_of_transitions", sp.data, acc, tol=1e-9)
+    # common rotation of all dipoles (about each Cartesian axis)
+    c_, s_ = cx.real("rot.c", 0.3, 0.9), cx.real("rot.s", 0.3, 0.9)
+    if cx.sym:
+        cx.assume(c_ * c_ + s_ * s_ == 1, "rotation: c^2 + s^2 = 1")
+    else:
+        nrm = (c_ * c_ + s_ * s_) ** 0.5
+        c_, s_ = c_ / nrm, s_ / nrm
+    for ax in range(3):
+        i, j = [(1, 2), (2, 0), (0, 1)][ax]
+        Dr = D.copy()
+        Dr[..., i] = c_ * D[..., i] - s_ * D[..., j]
+        Dr[..., j] = s_ * D[..., i] + c_ * D[..., j]
+        _, spr = _run_aggregate(cx, agg, ta, H, Dr)
+        cx.prove_eq("rotation_invariant[axis=%d]" % ax, spr.data, sp.data, tol=1e-9)
+
+
+@harness("C11", "relabelling",
+         quick=[dict(perm=[1, 0])], thorough=[dict(perm=[1, 0]), dict(perm=[1, 2, 0]), dict(perm=[0, 2, 1])],
+         functions=[F_A + ":AbsSpectrumCalculator._calculate_aggregate", F_A + ":AbsSpectrumCalculator._excitonic_coft",
+                    "quantarhei/builders/aggregate_base.py:AggregateBase.build",
+                    "quantarhei/qm/corfunctions/cfmatrix.py:CorrelationFunctionMatrix.get_coft"],
+         bound="dimer (thorough trimer) of molecules with different baths, built by the real Aggregate.build in the "
+               "original and in the permuted molecule order; the permuted aggregate gets the permuted Hamiltonian "
+               "P H P^T (= (PS) diag(w) (PS)^T) and dipoles: both spectra are equal at every point",
+         out="that Aggregate.build itself produces the permuted H and D (decided in C03)")
+def relabelling(cx, perm):
+    import quantarhei as qr
+    nmol = len(perm)
+    reorgs = [20 + 15 * i for i in range(nmol)]
+    agg = build_aggregate(cx, nmol, Nt=4, reorgs=reorgs)
+    agg2 = build_aggregate(cx, nmol, Nt=4, reorgs=reorgs, order=perm)
+    N = agg.HamOp.dim
+    with cx.concrete():
+        ta = qr.TimeAxis(0.0, 4, 1.0)
+    H, w, S = spectral_hamiltonian(cx, N, block=[[0], list(range(1, N))])
+    D, ds = _site_dipoles(cx, N)
+    # state k+1 of the permuted aggregate is state perm[k]+1 of the original one
+    idx = [0] + [p + 1 for p in perm]
+    H2 = H[numpy.ix_(idx, idx)].copy()
+    D2 = D[numpy.ix_(idx, idx)].copy()
+    if cx.sym:
+        from symnum import npatch
+        h = npatch.EIGH_HANDLER[0]
+        S2 = S[idx, :].copy()
+        h.register(H2, w.copy(), S2, S2.T.copy())
+    _, sp = _run_aggregate(cx, agg, ta, H, D)
+    _, sp2 = _run_aggregate(cx, agg2, ta, H2, D2)
+    cx.assume_denominators_nonzero("")
+    cx.prove_eq("axis", sp2.axis.data, sp.axis.data)
+    cx.prove_eq("spectrum_invariant_under_relabelling", sp2.data, sp.data, tol=1e-9)
